@@ -13,7 +13,7 @@ LEVEL = 'exploration'
 RULE = (
     'record streams built by an independent encoder: every 12-bit value in each of the six fields x random other nibbles, '
     'nibble patterns 0x0/0xF, header/particle interleavings (header first, runs of headers, header last, 1-50 particles between headers, '
-    'empty stream, particles before any header), cpd in {1,3,875,1701,4047}, velocity scales, cell indices incl. 0 and cpd-1; '
+    'empty stream, particles before any header), cpd in {1,2,3,875,1700,1701,4046,4047}, velocity scales, cell indices incl. 0 and cpd-1; '
     'a case = one stream decoded by the real unpack_pack9 in one (dtype, output mode); non-trivial = distinct (stream family, cpd, dtype, output mode)'
 )
 ASSUMPTIONS = [
@@ -21,7 +21,7 @@ ASSUMPTIONS = [
     'particles that precede the first header decode to NaN by design; only their count is checked',
 ]
 
-CPDS = [1, 3, 875, 1701, 4047]
+CPDS = [1, 2, 3, 875, 1700, 1701, 4046, 4047]
 
 
 def fields_of(data):
@@ -202,7 +202,7 @@ def check(run):
                 recs.append(pack_fields(f))
             data = np.concatenate(recs)
             # field-0 values >= 0xFF0 are headers by definition: keep them, they are part of the stream
-            modes = ALL_MODES if (rep == 0 and cpd in (1, 1701)) else [ALL_MODES[int(rng.integers(0, len(ALL_MODES)))], (np.float64, 'alloc')]
+            modes = ALL_MODES if (rep == 0 and cpd in (1, 1700)) else [ALL_MODES[int(rng.integers(0, len(ALL_MODES)))], (np.float64, 'alloc')]
             if run_modes(run, pack9, data, box, velz, f'fieldsweep:cpd{cpd}', modes):
                 return
     run.sample(dict(family='fieldsweep', header=header_record(1701, 1234, [0, 1700, 850]).tolist(), first_particle=pack_fields(np.array([[0, 1, 2, 3, 4, 5]])).tolist()))
